@@ -118,7 +118,7 @@ func (e *c15Env) setMode(m int) {
 	switch m {
 	case c15Up:
 		e.reopen()
-		e.st.remoteDBQueryTimeout = 2 * time.Second
+		e.st.remoteDBQueryTimeout = 20 * time.Second // production: 2 s; longer so that a loaded machine cannot turn an up primary into a slow one
 	case c15Slow:
 		e.reopen()
 		e.st.remoteDBQueryTimeout = 0
